@@ -119,19 +119,13 @@ def pml_mask(built, shape):
     return m
 
 
-def full_tensor_near_pml(built, inv_eps=None, inv_mu=None, dist=2):
-    """Deterministic classifier for the known finding 'full-tensor-near-pml': True iff some cell with a
-    non-zero off-diagonal inverse permittivity/permeability entry lies within `dist` cells (26-neighbourhood)
-    of a PML slab.  The off-diagonal averaging stencils of the anisotropic update reach two cells, while only
-    a one-cell PML interface is recorded, so the reverse reconstruction is inexact exactly there."""
+def near_pml(built, dist=2):
+    """Boolean (Nx,Ny,Nz): cells within Chebyshev distance `dist` of a PML cell (PML cells included)."""
     import numpy as np
 
     arrays = built["arrays"]
     shape = tuple(arrays.fields.E.shape[1:])
-    pml = ~pml_mask(built, shape)
-    if not pml.any():
-        return False
-    near = pml.copy()
+    near = ~pml_mask(built, shape)
     for _ in range(dist):
         grown = near.copy()
         for dx in (-1, 0, 1):
@@ -142,13 +136,27 @@ def full_tensor_near_pml(built, inv_eps=None, inv_mu=None, dist=2):
                     sh = near
                     for a, d in enumerate((dx, dy, dz)):
                         if d:
-                            sh = np.roll(sh, d, axis=a)
+                            sh = np.roll(sh, d, axis=a).copy()
                             sl = [slice(None)] * 3
                             sl[a] = 0 if d == 1 else -1
-                            sh = sh.copy()
                             sh[tuple(sl)] = False
                     grown |= sh
         near = grown
+    return near
+
+
+def full_tensor_near_pml(built, inv_eps=None, inv_mu=None, dist=2):
+    """Deterministic classifier for the known finding 'full-tensor-near-pml': True iff some cell with a
+    non-zero off-diagonal inverse permittivity/permeability entry lies within `dist` cells (26-neighbourhood)
+    of a PML slab.  The off-diagonal averaging stencils of the anisotropic update reach two cells, while only
+    a one-cell PML interface is recorded, so the reverse reconstruction is inexact exactly there."""
+    import numpy as np
+
+    arrays = built["arrays"]
+    shape = tuple(arrays.fields.E.shape[1:])
+    if not (~pml_mask(built, shape)).any():
+        return False
+    near = near_pml(built, dist)
     for arr in (arrays.inv_permittivities if inv_eps is None else inv_eps, arrays.inv_permeabilities if inv_mu is None else inv_mu):
         a = np.asarray(arr)
         if a.ndim == 4 and a.shape[0] == 9:
